@@ -30,7 +30,9 @@ Definition w_stale_member : pdf := mkpdf true 409 (Some 316)
    (316, (IXSect [mkxent 6 0 (XInUse 298)] (tr (ORef 1 0) (Some 138)), 390));
    (390, (IGarbage, 409))].
 
-(* (c1) the base revision's xref stream is object 11 0; an update defines 11 0 obj 777 *)
+(* (c1) FIXED by commit 4807949 (xref-stream objects are parsed in a context of their own).  On the pinned tree
+   (11, 0) stayed bound to the old xref stream: the base revision's xref stream is object 11 0; an update
+   defines 11 0 obj 777 *)
 Definition w_xstm_shadow : pdf := mkpdf true 313 (Some 221)
   [(15, (IObj (1, 0) cat, 50));
    (50, (IXStm (11, 0) [mkxent 0 65535 (XFree 0); mkxent 1 0 (XInUse 15); mkxent 11 0 (XInUse 50)] (Some (ORef 1 0)) None, 181));
@@ -39,7 +41,7 @@ Definition w_xstm_shadow : pdf := mkpdf true 313 (Some 221)
    (221, (IXSect [mkxent 11 0 (XInUse 201)] (tr (ORef 1 0) (Some 50)), 293));
    (293, (IGarbage, 313))].
 
-(* (c2) two revisions whose xref streams are both object 11 0 *)
+(* (c2) FIXED by commit 4807949; rejected on the pinned tree: two revisions whose xref streams are both object 11 0 *)
 Definition w_xstm_twice : pdf := mkpdf true 362 (Some 218)
   [(15, (IObj (1, 0) cat, 50));
    (50, (IXStm (11, 0) [mkxent 0 65535 (XFree 0); mkxent 1 0 (XInUse 15); mkxent 11 0 (XInUse 50)] (Some (ORef 1 0)) None, 181));
@@ -73,11 +75,13 @@ Example w_stale_member_eval :
 Proof. vm_compute. repeat split; reflexivity. Qed.
 
 Example w_xstm_shadow_eval :
-  is_loaded (load w_xstm_shadow) = true /\ get (load w_xstm_shadow) (11, 0) = Some VXStm.
+  is_loaded (load w_xstm_shadow) = true /\ get (load w_xstm_shadow) (11, 0) = Some (VObj (OInt 777)).
 Proof. vm_compute. split; reflexivity. Qed.
 
-Example w_xstm_twice_eval : load w_xstm_twice = Rejected.
-Proof. vm_compute. reflexivity. Qed.
+Example w_xstm_twice_eval :
+  is_loaded (load w_xstm_twice) = true /\ get (load w_xstm_twice) (2, 0) = Some (VObj (OInt 5)) /\
+  get (load w_xstm_twice) (11, 0) = Some VXStm.
+Proof. vm_compute. repeat split; reflexivity. Qed.
 
 Example w_len_in_objstm_eval : load w_len_in_objstm = Rejected.
 Proof. vm_compute. reflexivity. Qed.
